@@ -134,7 +134,12 @@ type frame struct {
 	loopOrd map[*ssa.BasicBlock]int
 	tag     string // inline tag for obligation names
 	phiIn   map[*ssa.Phi]map[*ssa.BasicBlock]Val
+	loopFrames map[*ssa.BasicBlock][]loopFrame
 	top     bool
+}
+
+type loopFrame struct {
+	name, sort, old, oldNext string
 }
 
 type nameRef struct {
@@ -165,7 +170,13 @@ func (ft *FT) fresh(prefix, sort string) string {
 func (ft *FT) fact(t string) { ft.facts = append(ft.facts, t) }
 
 func (ft *FT) unsupported(f string, a ...interface{}) {
-	ft.unsupp = append(ft.unsupp, fmt.Sprintf(f, a...))
+	m := fmt.Sprintf(f, a...)
+	for _, u := range ft.unsupp {
+		if u == m {
+			return
+		}
+	}
+	ft.unsupp = append(ft.unsupp, m)
 }
 
 // stateGet returns the current term of a state variable, creating the initial constant lazily.
@@ -554,9 +565,19 @@ func (ft *FT) typeInv(term string, t types.Type, st *State) {
 	case *types.Basic, *types.Struct:
 		ft.valueInv(term, t, 0)
 	case *types.Pointer:
-		_ = u
 		nx := ft.stateGet(ft.entry, "$next", "Int")
 		ft.fact(fmt.Sprintf("(and (<= 0 %s) (< %s %s))", term, term, nx))
+		// the entry heap is closed: pointers stored in the cell a parameter points to are allocated too
+		es := ft.g.reg.SortOf(u.Elem())
+		if si := ft.g.reg.structs[es]; si != nil {
+			h := ft.stateGet(st, "H|"+es, "(Array Int "+es+")")
+			for i, fty := range si.FTypes {
+				if _, ok := fty.Underlying().(*types.Pointer); ok {
+					f := "(" + si.Fields[i] + " (select " + h + " " + term + "))"
+					ft.fact(fmt.Sprintf("(and (<= 0 %s) (< %s %s))", f, f, nx))
+				}
+			}
+		}
 	}
 }
 
@@ -940,8 +961,20 @@ func (fr *frame) loopHeader(h *ssa.BasicBlock, body map[*ssa.BasicBlock]bool, st
 		if s == "" {
 			continue
 		}
-		nst.vars[k] = ft.fresh("hv_"+mangle(k), s)
+		nv := ft.fresh("hv_"+mangle(k), s)
+		nst.vars[k] = nv
 		ft.noteWrite(h, k)
+		if strings.HasPrefix(k, "H|") || strings.HasPrefix(k, "B|") {
+			// automatic frame invariant: cells that existed before the loop are not modified by it
+			// (assumed here, asserted on every back edge)
+			oldT := ft.stateGet(st, k, s)
+			oldNx := ft.stateGet(st, "$next", "Int")
+			if fr.loopFrames == nil {
+				fr.loopFrames = map[*ssa.BasicBlock][]loopFrame{}
+			}
+			fr.loopFrames[h] = append(fr.loopFrames[h], loopFrame{k, s, oldT, oldNx})
+			ft.fact(fmt.Sprintf("(forall ((r Int)) (! (=> (< r %s) (= (select %s r) (select %s r))) :pattern ((select %s r))))", oldNx, nv, oldT, nv))
+		}
 	}
 	oldNext := ft.stateGet(st, "$next", "Int")
 	nn := ft.fresh("next", "Int")
@@ -1004,6 +1037,11 @@ func (fr *frame) backEdge(src, h *ssa.BasicBlock, st *State) {
 	var invs []*Clause
 	if fr.c != nil {
 		invs = fr.c.Loops[ord]
+	}
+	for _, lf := range fr.loopFrames[h] {
+		cur := ft.stateGet(st, lf.name, lf.sort)
+		ft.addObl(fr, "inv-pres", fmt.Sprintf("%sL%d.frame(%s)", fr.tag, ord, strings.TrimPrefix(lf.name, "H|")), guard,
+			fmt.Sprintf("(forall ((r Int)) (=> (< r %s) (= (select %s r) (select %s r))))", lf.oldNext, cur, lf.old), "automatic frame invariant: the loop does not modify cells allocated before it", nil, nil)
 	}
 	if len(invs) == 0 {
 		return
